@@ -1,5 +1,6 @@
 import Acra.Drv.Core
 import Acra.Model.iNetX
+import Acra.Model.IENA
 namespace Acra.Drv
 open Acra.Py
 
@@ -33,7 +34,55 @@ def codec : Codec :=
     set := set, obs := obs, eq := fun a b => .ok (eq a b) }
 end iNetXC
 
-def ftiCodecs : List Codec := [iNetXC.codec]
+namespace IENAC
+open Acra.Model.IENA
+
+def setBase (s : Base) (f : String) (v : Val) : Option Base :=
+  match f with
+  | "key" => v.nat?.map fun n => { s with key := n }
+  | "size" => v.nat?.map fun n => { s with size := n }
+  | "timeusec" => v.nat?.map fun n => { s with timeusec := n }
+  | "keystatus" => v.nat?.map fun n => { s with keystatus := n }
+  | "status" => v.nat?.map fun n => { s with status := n }
+  | "sequence" => v.nat?.map fun n => { s with sequence := n }
+  | "endfield" => v.nat?.map fun n => { s with endfield := n }
+  | "payload" => v.bytes?.map fun b => { s with payload := b }
+  | "lengthError" => v.bool?.map fun b => { s with lengthError := b }
+  | _ => none
+
+def baseFields (s : Base) : List (String × Val) :=
+  [("key", .ofNat s.key), ("size", .ofNat s.size), ("timeusec", .ofNat s.timeusec),
+   ("keystatus", .ofNat s.keystatus), ("status", .ofNat s.status), ("sequence", .ofNat s.sequence),
+   ("endfield", .ofNat s.endfield), ("payload", .bytes s.payload), ("lengthError", .bool s.lengthError)]
+
+def codec : Codec :=
+  { σ := Base, name := "IENA", fresh := fun _ => some Base.fresh,
+    pack := fun s _ => bytesRes (Base.pack s),
+    unpack := fun s b _ => unitRes (Base.unpack s b),
+    set := fun s f v => (setBase s f v).bind setOk,
+    obs := fun s => .obj "IENA" (baseFields s), eq := fun a b => .ok (Base.eq a b) }
+
+def mparamOfVal (v : Val) : Option MParam := do
+  let p ← (← v.field? "paramid").nat?
+  let d ← (← v.field? "delay").nat?
+  let b ← (← v.field? "dataset").bytes?
+  pure { paramid := p, delay := d, dataset := b }
+def mparamVal (p : MParam) : Val :=
+  .obj "MParameter" [("paramid", .ofNat p.paramid), ("delay", .ofNat p.delay), ("dataset", .bytes p.dataset)]
+
+def codecM : Codec :=
+  { σ := MState, name := "IENAM", fresh := fun _ => some MState.fresh,
+    pack := fun s _ => bytesRes (MState.pack s),
+    unpack := fun s b _ => unitRes (MState.unpack s b) .null,
+    set := fun s f v =>
+      if f == "parameters" then
+        (v.list?.bind fun l => l.mapM mparamOfVal).bind fun ps => setOk { s with parameters := ps }
+      else (setBase s.base f v).bind fun b => setOk { s with base := b },
+    obs := fun s => .obj "IENAM" (baseFields s.base ++ [("parameters", .list (s.parameters.map mparamVal))]),
+    eq := fun a b => .ok (MState.eq a b) }
+end IENAC
+
+def ftiCodecs : List Codec := [iNetXC.codec, IENAC.codec, IENAC.codecM]
 def ftiFuncs : List Func := []
 
 end Acra.Drv
